@@ -1,46 +1,24 @@
-"""Per-property configuration of bin/check: theorem module, audited theorem names, generated-table
-obligations (proved inside the module; listed here for the evidence), correspondence suites."""
+"""Per-property configuration of bin/check. One file per property in bin/propsd/<id>.py defining
 
-PROPS = {
-    "C19": {
-        "lean": "MpsProps.C19",
-        "theorems": [
-            "Mps.C19.transcript_injective", "Mps.C19.distinct_items_distinct_streams",
-            "Mps.C19.transcript_prefix_free", "Mps.C19.digest_eq_imp",
-            "Mps.C19.encode_injective", "Mps.C19.encode_wf", "Mps.C19.encodeList_injective",
-            "Mps.C19.decommit_validates", "Mps.C19.commit_binding", "Mps.C19.commit_binding_values",
-            "Mps.C19.commit_then_decommit", "Mps.idsDataOld_collision",
-        ],
-        "generated": [
-            "Mps.C19.gen_framing", "Mps.C19.gen_prefix", "Mps.C19.gen_cases", "Mps.C19.gen_case_domains",
-            "Mps.C19.gen_domains", "Mps.C19.gen_domain_literals_nodup", "Mps.C19.gen_commit",
-            "Mps.C19.gen_decommit", "Mps.C19.gen_validate", "Mps.C19.gen_writers",
-        ],
-        "suites": [{"name": "frame", "quick": 400, "thorough": 20000}],
-        # fields whose disagreement is a failure of the property itself (not only of the tie)
-        "propfields": {"frame": ["same", "ok"]},
-        "level_text": "Proof: framing injectivity (transcript_injective, prefix-freeness), per-type encoder injectivity on each type's validity domain (encode_injective, all fixed-domain Go types incl. cross-type), digest_eq_imp (equal digests imply equal item sequences or an explicit hash collision) and commitment binding/validation are Lean theorems for ALL item sequences and values. The model is tied to the code by kernel-checked obligations over tables regenerated from the source (framing writes, switch order, every Domain() literal, every WriteTo body, Commit/Decommit/Validate) and by a bit-exact Go-vs-Lean differential (BLAKE3 re-implemented in Lean) over generated and adversarially related sequences.",
-        "level_note": "Trusted: Lean kernel; translator; harness+diff; BLAKE3 collision resistance is NOT assumed (collisions appear as an explicit disjunct). Modelled not verified: that Go's WriteAny/WriteTo do what the extracted call sequences say (tied by the differential); CBOR-encoded payloads (Exponent, cmp Config) are treated as opaque byte strings.",
-    },
+PROP = {
+  "lean":       theorem module of the property (MpsProps.Cxx),
+  "theorems":   fully qualified names of the property theorems (audited with #print axioms),
+  "generated":  obligations over the regenerated tables (also audited),
+  "suites":     [{"name": suite, "quick": n, "thorough": n, "race": bool}],   correspondence suites
+  "propfields": {suite: [field, ...]}  fields whose disagreement is a failure of the PROPERTY itself
+  "level_text", "level_note": for MANIFEST.json
 }
+"""
+import importlib.util, os
 
-PROPS["C17"] = {
-    "lean": "MpsProps.C17",
-    "theorems": [
-        "Mps.C17.lifecycle", "Mps.C17.close_at_most_once", "Mps.C17.closed_iff_ended", "Mps.C17.result_xor_error",
-        "Mps.C17.ended_is_final", "Mps.C17.stop_running_errors", "Mps.C17.stop_finished_noop",
-        "Mps.C17.not_canAccept_noop", "Mps.C17.duplicate_noop",
-    ],
-    "generated": ["Mps.C17.gen_lock_discipline", "Mps.C17.gen_stop"],
-    "suites": [
-        {"name": "handler", "quick": 250, "thorough": 6000},
-        {"name": "handlerconc", "quick": 60, "thorough": 1500, "race": True},
-    ],
-    "race": True,
-    "propfields": {"handler": ["closed", "term", "can"], "handlerconc": ["ok"]},
-    "level_text": "Proof (partial for the runtime part): the lifecycle invariant (channel closed at most once and exactly when ended; result xor error; ended state absorbing; Stop ends a running session and is a no-op on an ended one; refused and duplicate messages are no-ops) is a Lean theorem over ALL scripts and ALL sequences of API calls of the handler model, which transcribes MultiHandler field by field. Serialisability of concurrent calls is reduced to a kernel-checked obligation over the regenerated lock table (every exported method takes the mutex first and defers the unlock). The model is tied to the real MultiHandler by a scripted protocol run through the real handler under generated schedules (all observables compared, echo hashes bit for bit) and by concurrent runs under the race detector.",
-    "level_note": "PARTIAL: the Go memory model / scheduler are not modelled — data-race freedom is derived from the extracted lock discipline and searched with -race, not proved about the runtime; blocking on the bounded out channel is excluded by a concurrent drainer in the harness (the property grants draining). The TwoPartyHandler is covered by the lock/Stop tables and suite twoparty, its lifecycle theorem is the analogue over Mps.TwoParty.",
-}
+_D = os.path.join(os.path.dirname(os.path.abspath(__file__)), "propsd")
+PROPS = {}
+for _f in sorted(os.listdir(_D)):
+    if _f.endswith(".py"):
+        _spec = importlib.util.spec_from_file_location("propsd_" + _f[:-3], os.path.join(_D, _f))
+        _m = importlib.util.module_from_spec(_spec)
+        _spec.loader.exec_module(_m)
+        PROPS[_f[:-3]] = _m.PROP
 
-# properties that are not (yet) claimed, with the reason
+# properties that are not claimed, with the reason (default text in bin/mkmanifest)
 NOT_APPLICABLE = {}
